@@ -220,15 +220,15 @@ func rulesNewickNames(c *Ctx, r *Report) {
 	okWrap := false
 	if Q != nil {
 		s := newSymb(n2t)
-		instrs(n2t, func(in ssa.Instruction) {
-			if rt, ok := in.(*ssa.Return); ok && (rt.Block() == qBlk || qBlk.Dominates(rt.Block())) {
-				e := s.expr(rt.Results[0]).String()
-				q := s.expr(Q.call).String()
-				if e == "((\"'\" ++ "+q+") ++ \"'\")" {
+		q := s.expr(Q.call).String()
+		for _, rc := range returnCases(s, n2t) {
+			if len(rc.vals) == 1 && s.expr(rc.vals[0]).String() == "((\"'\" ++ "+q+") ++ \"'\")" {
+				// the wrapped text is what the quoting branch returns (directly, or through a result variable)
+				if v, ok := rc.vals[0].(ssa.Instruction); ok && (v.Block() == qBlk || qBlk.Dominates(v.Block())) {
 					okWrap = true
 				}
 			}
-		})
+		}
 	}
 	// reader drops exactly first and last byte
 	okStrip := false
@@ -321,9 +321,41 @@ func rulesNewickWriter(c *Ctx, r *Report) {
 			}
 		}
 	})
+	ds := s // expressions around the distance write, in terms of the writer's own parameters
+	if distWrite == nil {
+		// the distance suffix written by a helper the writer calls
+		instrs(w, func(in ssa.Instruction) {
+			cl, ok := in.(*ssa.Call)
+			if !ok || distWrite != nil {
+				return
+			}
+			g := cl.Call.StaticCallee()
+			if g == nil || g.Blocks == nil || !c.inModule(g) || g == w || g == n2t {
+				return
+			}
+			var inner *ssa.Call
+			instrs(g, func(in2 ssa.Instruction) {
+				if c2, ok := in2.(*ssa.Call); ok && strings.HasPrefix(qname(c2.Call.StaticCallee()), "fmt.Fprint") {
+					inner = c2
+				}
+			})
+			if inner == nil {
+				return
+			}
+			sub := newSymb(g)
+			for i, p := range g.Params {
+				if i < len(cl.Call.Args) {
+					sub.subst[p] = s.expr(cl.Call.Args[i])
+				}
+			}
+			distWrite, ds = inner, sub
+			r.analysed(fname(g))
+		})
+	}
 	if distWrite == nil {
 		r.undecided("DIST0", fname(w), "distance write", c.pos(w.Pos()), "no fmt.Fprint* of the distance found")
 	} else {
+		s := ds
 		// dominating condition
 		b := distWrite.Block()
 		d := b.Idom()
